@@ -312,6 +312,7 @@ package apd
 
 //@ func Condition.GoError
 //@   props C03
+//@   requires closed(r)
 //@   pure
 //@   ensures ret0 == r
 //@   ensures ret1 != nil <==> (has(r, SystemOverflow | SystemUnderflow) || has(r, traps))
@@ -363,7 +364,7 @@ package apd
 //@   assigns d.Coeff, d.Exponent, d.Form
 //@   loop 1 invariant #i >= -1 && (#i < len(xs) || #i == -1) && sum == sumupto(xs, #i + 1) && nobadupto(xs, #i + 1)
 //@   loop 1 decreases len(xs) - #i
-//@   ensures [inv] (d.Form == old(d.Form) || d.Form == Infinite) && val(d.Coeff) >= 0
+//@   ensures [inv] (d.Form == old(d.Form) || d.Form == Infinite) && val(d.Coeff) >= 0 && (closed(res) ==> closed(ret))
 //@   ensures [sys] syscode(xs, sumupto(xs, len(xs)) + nd10(old(val(d.Coeff))) - 1) != 0 ==> (ret == syscode(xs, sumupto(xs, len(xs)) + nd10(old(val(d.Coeff))) - 1) && unchanged(d))
 //@   ensures [main] ctxsane(c) && syscode(xs, sumupto(xs, len(xs)) + nd10(old(val(d.Coeff))) - 1) == 0 ==> SEmain(c, old(d.Form), old(d.Negative), old(val(d.Coeff)), sumupto(xs, len(xs)), sumupto(xs, len(xs)) + nd10(old(val(d.Coeff))) - 1, res, d, ret)
 
@@ -388,9 +389,11 @@ package apd
 //@ define RNorm(c: *Context, neg: bool, C: int, E: int, d: *Decimal, ret: cond): bool = d.Form == Finite && d.Negative == neg && val(d.Coeff) == NCOEF(c, neg, C) && d.Exponent == NEXP(c, neg, C, E) && (has(ret, Inexact) <==> RR(C, NSH(c, C)) != 0) && (has(ret, Inexact) ==> has(ret, Rounded)) && only(ret, Inexact | Rounded)
 
 // Rounded: d and ret are the exact value (-1)^neg*C*10^E rounded once to context c (Precision >= 1).
-//@ define Rounded(c: *Context, neg: bool, C: int, E: int, d: *Decimal, ret: cond): bool = ite(C == 0, RZero(c, neg, E, d, ret), ite(E + nd10(C) - 1 < c.MinExponent, RSub(c, neg, C, E, d, ret), ite(NSYS(c, neg, C, E), has(ret, SystemOverflow), ite(NADJ(c, neg, C, E) > c.MaxExponent, ROvf(neg, d, ret), RNorm(c, neg, C, E, d, ret)))))
+//@ define Rounded(c: *Context, neg: bool, C: int, E: int, d: *Decimal, ret: cond): bool = ite(E < -100000 || E > 100000, has(ret, SystemOverflow | SystemUnderflow), ite(C == 0, RZero(c, neg, E, d, ret), ite(E + nd10(C) - 1 < c.MinExponent, RSub(c, neg, C, E, d, ret), ite(NSYS(c, neg, C, E), has(ret, SystemOverflow), ite(NADJ(c, neg, C, E) > c.MaxExponent, ROvf(neg, d, ret), RNorm(c, neg, C, E, d, ret))))))
 
-//@ define finwf(c: *Context, x: *Decimal): bool = wfctx(c) && wfdec(x) && x.Form == Finite
+//@ define finwf(c: *Context, x: *Decimal): bool = wfctx(c) && inv(x) && x.Form == Finite && -100000 <= x.Exponent && x.Exponent <= 100000
+//@ define closed(r: cond): bool = only(r, 4095)
+//@ define trapped(c: *Context, r: cond): bool = has(r, SystemOverflow | SystemUnderflow) || has(r, c.Traps)
 
 //@ func Rounder.Round
 //@   props C01 C02 C07 C20
@@ -400,9 +403,60 @@ package apd
 //@   hint pow10_add(c.Precision - 1, nd10(val(x.Coeff)) - c.Precision)
 //@   hint div_lt(val(x.Coeff), pow10(nd10(val(x.Coeff)) - c.Precision), pow10(c.Precision))
 //@   hint div_ge(val(x.Coeff), pow10(nd10(val(x.Coeff)) - c.Precision), pow10(c.Precision - 1))
-//@   ensures [inv] inv(d)
-//@   ensures [zero] finwf(c, old(x)) && r == c.Rounding && old(val(x.Coeff)) == 0 ==> RZero(c, old(x.Negative), old(x.Exponent), d, ret)
-//@   ensures [sub] finwf(c, old(x)) && r == c.Rounding && old(val(x.Coeff)) != 0 && old(x.Exponent) + nd10(old(val(x.Coeff))) - 1 < c.MinExponent ==> RSub(c, old(x.Negative), old(val(x.Coeff)), old(x.Exponent), d, ret)
-//@   ensures [sys] finwf(c, old(x)) && r == c.Rounding && old(val(x.Coeff)) != 0 && old(x.Exponent) + nd10(old(val(x.Coeff))) - 1 >= c.MinExponent ==> (has(ret, SystemOverflow) <==> NSYS(c, old(x.Negative), old(val(x.Coeff)), old(x.Exponent))) && !has(ret, SystemUnderflow)
-//@   ensures [ovf] finwf(c, old(x)) && r == c.Rounding && old(val(x.Coeff)) != 0 && old(x.Exponent) + nd10(old(val(x.Coeff))) - 1 >= c.MinExponent && !NSYS(c, old(x.Negative), old(val(x.Coeff)), old(x.Exponent)) && NADJ(c, old(x.Negative), old(val(x.Coeff)), old(x.Exponent)) > c.MaxExponent ==> ROvf(old(x.Negative), d, ret)
-//@   ensures [norm] finwf(c, old(x)) && r == c.Rounding && old(val(x.Coeff)) != 0 && old(x.Exponent) + nd10(old(val(x.Coeff))) - 1 >= c.MinExponent && !NSYS(c, old(x.Negative), old(val(x.Coeff)), old(x.Exponent)) && NADJ(c, old(x.Negative), old(val(x.Coeff)), old(x.Exponent)) <= c.MaxExponent ==> RNorm(c, old(x.Negative), old(val(x.Coeff)), old(x.Exponent), d, ret)
+//@   ensures [inv] inv(d) && closed(ret)
+//@   ensures [esys] wfctx(c) && old(x.Form) == Finite && (old(x.Exponent) < -100000 || old(x.Exponent) > 100000) ==> has(ret, SystemOverflow | SystemUnderflow)
+//@   ensures [zero] old(finwf(c, x)) && r == c.Rounding && old(val(x.Coeff)) == 0 ==> RZero(c, old(x.Negative), old(x.Exponent), d, ret)
+//@   ensures [sub] old(finwf(c, x)) && r == c.Rounding && old(val(x.Coeff)) != 0 && old(x.Exponent) + nd10(old(val(x.Coeff))) - 1 < c.MinExponent ==> RSub(c, old(x.Negative), old(val(x.Coeff)), old(x.Exponent), d, ret)
+//@   ensures [sys] old(finwf(c, x)) && r == c.Rounding && old(val(x.Coeff)) != 0 && old(x.Exponent) + nd10(old(val(x.Coeff))) - 1 >= c.MinExponent ==> (has(ret, SystemOverflow) <==> NSYS(c, old(x.Negative), old(val(x.Coeff)), old(x.Exponent))) && !has(ret, SystemUnderflow)
+//@   ensures [ovf] old(finwf(c, x)) && r == c.Rounding && old(val(x.Coeff)) != 0 && old(x.Exponent) + nd10(old(val(x.Coeff))) - 1 >= c.MinExponent && !NSYS(c, old(x.Negative), old(val(x.Coeff)), old(x.Exponent)) && NADJ(c, old(x.Negative), old(val(x.Coeff)), old(x.Exponent)) > c.MaxExponent ==> ROvf(old(x.Negative), d, ret)
+//@   ensures [norm] old(finwf(c, x)) && r == c.Rounding && old(val(x.Coeff)) != 0 && old(x.Exponent) + nd10(old(val(x.Coeff))) - 1 >= c.MinExponent && !NSYS(c, old(x.Negative), old(val(x.Coeff)), old(x.Exponent)) && NADJ(c, old(x.Negative), old(val(x.Coeff)), old(x.Exponent)) <= c.MaxExponent ==> RNorm(c, old(x.Negative), old(val(x.Coeff)), old(x.Exponent), d, ret)
+
+// ---------------------------------------------------------------- context.go
+
+//@ func Condition.String
+//@   trusted builds the error text only; its panic is unreachable for flags within the twelve documented bits (requires)
+//@   requires closed(r)
+//@   pure
+
+//@ func (*Context).goError
+//@   props C03 C02
+//@   requires closed(flags)
+//@   pure
+//@   ensures ret0 == flags
+//@   ensures ret1 != nil <==> trapped(c, flags)
+
+//@ func (*Context).etiny
+//@   props C01 C07
+//@   pure
+//@   ensures ctxsane(c) ==> ret == etiny(c)
+
+//@ func (*Context).shouldSetAsNaN
+//@   props C08
+//@   nilable y
+//@   pure
+//@   ensures ret <==> (isnan(x) || (y != nil && isnan(y)))
+
+//@ define nanpick(x: *Decimal, y: *Decimal): *Decimal = ite(x.Form == NaNSignaling, x, ite(y != nil && y.Form == NaNSignaling, y, ite(x.Form == NaN, x, y)))
+
+//@ func (*Context).setAsNaN
+//@   props C08 C03 C05 C06
+//@   nilable y
+//@   requires writable(d) && (isnan(x) || (y != nil && isnan(y)))
+//@   assigns d
+//@   ensures [value] d.Form == NaN && d.Negative == old(nanpick(x, y).Negative) && d.Exponent == old(nanpick(x, y).Exponent) && val(d.Coeff) == old(val(nanpick(x, y).Coeff))
+//@   ensures [flags] ret0 == flag(old(nanpick(x, y).Form) == NaNSignaling, InvalidOperation)
+//@   ensures [trap] ret1 != nil <==> trapped(c, ret0)
+
+//@ func (*Context).round
+//@   props C01 C02 C07 C20
+//@   requires writable(d) && inv(x)
+//@   assigns d
+//@   ensures [inv] inv(d) && closed(ret)
+//@   ensures [rounded] wfctx(c) && old(x.Form) == Finite ==> Rounded(c, old(x.Negative), old(val(x.Coeff)), old(x.Exponent), d, ret)
+
+//@ func upscale
+//@   props C01 C10 C15
+//@   requires writable(tmp) && tmp != a.Coeff && tmp != b.Coeff && inv(a) && inv(b)
+//@   assigns tmp
+//@   ensures [err] ret3 != nil <==> abs(a.Exponent - b.Exponent) > 100000
+//@   ensures [scale] ret3 == nil ==> (ret2 == min(a.Exponent, b.Exponent) && val(ret0) == old(val(a.Coeff)) * pow10(a.Exponent - min(a.Exponent, b.Exponent)) && val(ret1) == old(val(b.Coeff)) * pow10(b.Exponent - min(a.Exponent, b.Exponent)) && (ret0 == a.Coeff || ret0 == tmp) && (ret1 == b.Coeff || ret1 == tmp) && ret0 != nil && ret1 != nil)
